@@ -4,6 +4,7 @@ Real code: output_to_verilog and _to_verilog_*, _VerilogSanitizer, output_verilo
 and the three simulators' recording of initial state run concretely/symbolically; the emitted text is given meaning by
 vf/vtrans.py (Verilog-2001 width and non-blocking rules) and compared with the real Simulation on shared variables."""
 import io
+import contextlib
 import re
 import z3
 import pyrtl
@@ -83,13 +84,13 @@ def cases(tier, seed):
     base.append({'fam': 'BIGCONST'})
     for i, c in enumerate(base):
         for ar in (RESETS if (c['fam'] in ('NAMES', 'SEQ', 'MISC') or c.get('dest') == 'reg') else [RESETS[i % 3]]):
-            out.append(dict(c, k='module', K=K, add_reset=ar))
+            out.append(dict(c, k='module', K=K, add_reset=ar, wb=WB[(len(out)) % 3]))
     tb_base = designs.seq_cases(widths=(4,)) + names_cases() + designs.expr_cases(8 if tier == 'quick' else 160, seed + 43, n=6, maxw=5,
                                                                                  ops=['+', '-', '&', '|', '^', '~', '<', 'x', 'c', 's', 'trunc', 'const'])
     tb_base += [{'fam': 'MEM', 'aw': 2, 'bw': 4, 'nr': 1, 'nw': 1}, {'fam': 'ROM', 'aw': 2, 'bw': 5, 'data': 'list', 'nr': 1}]
     for i, c in enumerate(tb_base):
         for simk in ('sim', 'fast', 'compiled'):
-            out.append(dict(c, k='testbench', K=2, add_reset=RESETS[i % 3], sim=simk, init=['zero', 'ones', 'alt'][i % 3]))
+            out.append(dict(c, k='testbench', K=2, add_reset=RESETS[i % 3], sim=simk, init=['zero', 'ones', 'alt'][i % 3], wb=WB[(len(out)) % 3]))
     return out
 
 
@@ -111,9 +112,27 @@ def site_of(c):
     return 'C05:%s(add_reset=%s%s):%s:%s' % (c['k'], c['add_reset'], (',' + c['sim']) if c['k'] == 'testbench' else '', c['fam'], d)
 
 
-def export(block, add_reset):
+WB = ['same', 'foreign', 'implicit']
+
+
+@contextlib.contextmanager
+def wb_mode(block, mode):
+    """how the exporter is invoked: the block is the working block and passed as block= ('same'), passed as block= while an
+    unrelated block is the working block ('foreign'), or the working block with no block argument ('implicit')"""
+    if mode == 'foreign':
+        from . import c11
+        decoy = c11.decoy_block()
+        with pyrtl.set_working_block(decoy, no_sanity_check=True):
+            yield {'block': block}
+    else:
+        with pyrtl.set_working_block(block, no_sanity_check=True):
+            yield ({} if mode == 'implicit' else {'block': block})
+
+
+def export(block, add_reset, mode='same'):
     buf = io.StringIO()
-    pyrtl.output_to_verilog(buf, add_reset=add_reset, block=block)
+    with wb_mode(block, mode) as kw:
+        pyrtl.output_to_verilog(buf, add_reset=add_reset, **kw)
     return buf.getvalue()
 
 
@@ -156,7 +175,7 @@ def run_module(case, ob, site):
         return ob.fact('skipped-nand', True)
     ar = case['add_reset']
     try:
-        text = export(block, ar)
+        text = export(block, ar, case.get('wb', 'same'))
     except Exception as e:
         return ob.fact('output_to_verilog-accepts-design', False, site + ':raises', detail='%s: %s' % (type(e).__name__, e))
     try:
@@ -297,13 +316,14 @@ def _check_testbench(case, ob, site, block, r, tracer, regs0, mems0, assume, v):
                    detail='the trace\'s initial memory contents changed while simulating (memory ids %r)' % polluted):
         return
     try:
-        text = export(block, ar)
+        text = export(block, ar, case.get('wb', 'same'))
         mod = vtrans.Module(text)
     except Exception as e:
         return ob.fact('module-exports', False, site + ':module', detail=str(e))
     buf = io.StringIO()
     try:
-        pyrtl.output_verilog_testbench(buf, simulation_trace=tracer, add_reset=ar, block=block, vcd=None)
+        with wb_mode(block, case.get('wb', 'same')) as kw:
+            pyrtl.output_verilog_testbench(buf, simulation_trace=tracer, add_reset=ar, vcd=None, **kw)
     except Exception as e:
         return ob.fact('output_verilog_testbench-accepts-trace', False, site + ':raises', detail='%s: %s' % (type(e).__name__, e))
     tb = vtrans.Testbench(buf.getvalue())
@@ -421,7 +441,7 @@ def replay(cex):
         bad = [x['obligation'] for x in ob.sat]
         return cex['obligation'] in bad or (bool(bad) and not cex.get('structural')), 'failing on re-execution against the real exporter: %r' % bad[:6]
     block = designs.build(case)
-    text = export(block, case['add_reset'])
+    text = export(block, case['add_reset'], case.get('wb', 'same'))
     mod = vtrans.Module(text)
     mp, err = match_ports(block, mod)
     mv = cex.get('model', {})
